@@ -24,3 +24,5 @@ NOT_DEDUCTIVE = ["induction over histories (A10): WF(B) is proved preserved per 
 
 from shell import runtime as _runtime
 SHELL = [_runtime.contracts_at_run_time]
+
+USES_SUM_LEMMAS = True
